@@ -371,7 +371,54 @@ fn node_main(
     out
 }
 
-pub fn run_world(world: &WorldSpec, scratch: &Scratch) -> WorldResult {
+type Job<'s> = Box<dyn FnOnce() + Send + 's>;
+
+/// Long-lived node threads for worlds that do not ask for fresh threads (cheap: no thread churn).
+/// Their std hash keys were fixed when each thread built its first HashMap, so in pooled worlds the
+/// per-node hash seed is a function of the session history rather than a per-world knob.
+pub struct Pool<'s> {
+    txs: Vec<std::sync::mpsc::Sender<Job<'s>>>,
+}
+
+impl<'s> Pool<'s> {
+    fn ensure<'env>(&mut self, scope: &'s std::thread::Scope<'s, 'env>, n: usize) {
+        while self.txs.len() < n {
+            let (tx, rx) = std::sync::mpsc::channel::<Job<'s>>();
+            let ix = self.txs.len();
+            std::thread::Builder::new()
+                .name(format!("pool{ix}"))
+                .stack_size(node_stack())
+                .spawn_scoped(scope, move || {
+                    while let Ok(job) = rx.recv() {
+                        job();
+                    }
+                })
+                .expect("spawn pool thread");
+            self.txs.push(tx);
+        }
+    }
+}
+
+fn node_stack() -> usize {
+    std::env::var("VRL_SIM_STACK_MB").ok().and_then(|s| s.parse::<usize>().ok()).unwrap_or(16) * 1024 * 1024
+}
+
+fn node_job(ix: usize, world: &WorldSpec, shared: &[Option<Arc<Program>>], scratch: &Scratch, sched: &Arc<Sched>, outs: &Mutex<Vec<Option<NodeOut>>>) {
+    entropy::seed_thread(world.nodes[ix].hash_seed);
+    sched::enter_node(sched, ix);
+    let r = catch_unwind(AssertUnwindSafe(|| node_main(ix, world, shared, scratch)));
+    let out = r.unwrap_or_else(|_| NodeOut {
+        obs: vec![Obs { node: ix, op: usize::MAX, kind: "node".into(), outcome: format!("PANIC outside an operation: {}", take_panic()), panicked: true, ..Default::default() }],
+        hits: vec![],
+        probes: BTreeMap::new(),
+        log_digest: 0,
+    });
+    outs.lock().unwrap_or_else(|e| e.into_inner())[ix] = Some(out);
+    sched::leave_node();
+}
+
+/// Runs one world on the calling (coordinator) thread; node threads are fresh (`pool` = None) or pooled.
+pub fn run_world<'s, 'env: 's>(world: &'env WorldSpec, scratch: &'env Scratch, pool: Option<(&mut Pool<'s>, &'s std::thread::Scope<'s, 'env>)>) -> WorldResult {
     let mut res = WorldResult { id: world.id.clone(), ..Default::default() };
     match world.clock {
         Some(c) => {
@@ -386,61 +433,55 @@ pub fn run_world(world: &WorldSpec, scratch: &Scratch) -> WorldResult {
         }
     }
     // precompilation on this (coordinator) thread
-    let mut shared: Vec<Option<Arc<Program>>> = vec![];
+    let mut shared_v: Vec<Option<Arc<Program>>> = vec![];
     for p in &world.programs {
         if p.precompile {
             let c = compile_program(p, scratch);
             res.log_digest = fnv_add(res.log_digest, c.outcome.as_bytes());
             res.precompiled.push(Some(c.outcome));
-            shared.push(c.program);
+            shared_v.push(c.program);
         } else {
             res.precompiled.push(None);
-            shared.push(None);
+            shared_v.push(None);
         }
     }
+    let shared = Arc::new(shared_v);
     let n = world.nodes.len();
     let sched = Sched::new(n, world.sched.policy.clone(), world.sched.seed, world.sched.max_yields);
-    let outs: Mutex<Vec<Option<NodeOut>>> = Mutex::new((0..n).map(|_| None).collect());
-    let stuck = std::thread::scope(|scope| {
-        for ix in 0..n {
-            let sched = sched.clone();
-            let shared = &shared;
-            let outs = &outs;
-            let hash_seed = world.nodes[ix].hash_seed;
-            std::thread::Builder::new()
-                .name(format!("node{ix}"))
-                .stack_size(16 * 1024 * 1024)
-                .spawn_scoped(scope, move || {
-                    entropy::seed_thread(hash_seed);
-                    sched::enter_node(&sched, ix);
-                    let r = catch_unwind(AssertUnwindSafe(|| node_main(ix, world, shared, scratch)));
-                    let out = r.unwrap_or_else(|_| NodeOut {
-                        obs: vec![Obs { node: ix, op: usize::MAX, kind: "node".into(), outcome: format!("PANIC outside an operation: {}", take_panic()), panicked: true, ..Default::default() }],
-                        hits: vec![],
-                        probes: BTreeMap::new(),
-                        log_digest: 0,
-                    });
-                    outs.lock().unwrap_or_else(|e| e.into_inner())[ix] = Some(out);
-                    sched::leave_node();
-                })
-                .expect("spawn node thread");
+    let outs: Arc<Mutex<Vec<Option<NodeOut>>>> = Arc::new(Mutex::new((0..n).map(|_| None).collect()));
+    let watchdog = Duration::from_secs(60);
+    let report = match pool {
+        Some((pool, scope)) => {
+            pool.ensure(scope, n);
+            for ix in 0..n {
+                let (sched, shared, outs) = (sched.clone(), shared.clone(), outs.clone());
+                let job: Job<'s> = Box::new(move || node_job(ix, world, &shared, scratch, &sched, &outs));
+                pool.txs[ix].send(job).expect("pool thread alive");
+            }
+            sched.run_to_completion(watchdog)
         }
-        let rep = sched.run_to_completion(Duration::from_secs(60));
-        let stuck = rep.stuck;
-        res.sched = rep;
-        if stuck {
-            // nodes are parked for ever; the session cannot continue. Report and leave the process.
-            let mut r = SessionResult::default();
-            res.monitor_hits.push(MonitorHit { class: String::new(), monitor: "stuck".into(), node: 0, op: 0, what: "no node reached a yield point within the watchdog".into() });
-            r.worlds.push(std::mem::take(&mut res));
-            println!("{}", serde_json::to_string(&r).unwrap());
-            std::process::exit(0);
-        }
-        stuck
-    });
-    let _ = stuck;
+        None => std::thread::scope(|scope| {
+            for ix in 0..n {
+                let (sched, shared, outs) = (sched.clone(), shared.clone(), outs.clone());
+                std::thread::Builder::new()
+                    .name(format!("node{ix}"))
+                    .stack_size(node_stack())
+                    .spawn_scoped(scope, move || node_job(ix, world, &shared, scratch, &sched, &outs))
+                    .expect("spawn node thread");
+            }
+            let rep = sched.run_to_completion(watchdog);
+            if rep.stuck {
+                bail_stuck(&mut res, rep.clone());
+            }
+            rep
+        }),
+    };
+    if report.stuck {
+        bail_stuck(&mut res, report.clone());
+    }
+    res.sched = report;
     drop(shared);
-    let outs = outs.into_inner().unwrap_or_else(|e| e.into_inner());
+    let outs = std::mem::take(&mut *outs.lock().unwrap_or_else(|e| e.into_inner()));
     for o in outs.into_iter().flatten() {
         res.log_digest = fnv_add(res.log_digest, &o.log_digest.to_le_bytes());
         res.obs.extend(o.obs);
@@ -456,31 +497,51 @@ pub fn run_world(world: &WorldSpec, scratch: &Scratch) -> WorldResult {
     res
 }
 
+/// Nodes are parked for ever: the session cannot continue. Report what we have and leave the process.
+fn bail_stuck(res: &mut WorldResult, rep: crate::sched::SchedReport) -> ! {
+    res.sched = rep;
+    res.monitor_hits.push(MonitorHit { class: String::new(), monitor: "stuck".into(), node: 0, op: 0, what: "no node reached a yield point within the watchdog".into() });
+    let mut partial = PARTIAL.lock().unwrap_or_else(|e| e.into_inner()).clone();
+    partial.worlds.push(std::mem::take(res));
+    println!("{}", serde_json::to_string(&partial).unwrap());
+    std::process::exit(0);
+}
+
+static PARTIAL: Mutex<SessionResult> = Mutex::new(SessionResult { worlds: vec![], aslr_disabled: false, entropy_calls: 0 });
+
 pub fn run_session(spec: &SessionSpec) -> SessionResult {
     let scratch = Scratch::new();
     let mut result = SessionResult { aslr_disabled: crate::aslr_is_off(), ..Default::default() };
-    for world in &spec.worlds {
-        // each world gets its own coordinator thread so that its hash seed is a knob too
-        let r = std::thread::scope(|scope| {
-            std::thread::Builder::new()
-                .name("coord".into())
-                .stack_size(32 * 1024 * 1024)
-                .spawn_scoped(scope, || {
-                    entropy::seed_thread(world.coord_hash_seed ^ 0xC00D);
-                    run_world(world, &scratch)
+    let scratch_ref = &scratch;
+    std::thread::scope(|scope| {
+        let mut pool = Pool { txs: vec![] };
+        for world in &spec.worlds {
+            let w = if world.fresh_threads {
+                // the world gets its own coordinator and node threads so that its hash seeds are knobs of the world
+                let r = std::thread::scope(|inner| {
+                    std::thread::Builder::new()
+                        .name("coord".into())
+                        .stack_size(2 * node_stack())
+                        .spawn_scoped(inner, || {
+                            entropy::seed_thread(world.coord_hash_seed ^ 0xC00D);
+                            run_world(world, scratch_ref, None)
+                        })
+                        .expect("spawn coordinator")
+                        .join()
+                });
+                r.unwrap_or_else(|_| WorldResult {
+                    id: world.id.clone(),
+                    monitor_hits: vec![MonitorHit { class: String::new(), monitor: "harness".into(), node: 0, op: 0, what: format!("coordinator panicked: {}", take_panic()) }],
+                    ..Default::default()
                 })
-                .expect("spawn coordinator")
-                .join()
-        });
-        match r {
-            Ok(w) => result.worlds.push(w),
-            Err(_) => result.worlds.push(WorldResult {
-                id: world.id.clone(),
-                monitor_hits: vec![MonitorHit { class: String::new(), monitor: "harness".into(), node: 0, op: 0, what: format!("coordinator panicked: {}", take_panic()) }],
-                ..Default::default()
-            }),
+            } else {
+                run_world(world, scratch_ref, Some((&mut pool, scope)))
+            };
+            PARTIAL.lock().unwrap_or_else(|e| e.into_inner()).worlds.push(w.clone());
+            result.worlds.push(w);
         }
-    }
+        drop(pool); // closes the channels: pool threads leave their loops and the scope can end
+    });
     result.entropy_calls = entropy::CALLS.load(Ordering::Relaxed);
     result
 }
